@@ -502,8 +502,13 @@ func (g *Gen) havocTarget(env *Env, st *State, m Expr) error {
 				key := g.elemCompKey(sl.Elem(), l.Path)
 				srt := arrSort(sInt, arrSort(sInt, l.Sort))
 				c := g.compTerm(st, key, srt)
-				g.setComp(st, key, srt, smtSto(c, s.L[0], g.fresh("hv.E", arrSort(sInt, l.Sort))))
+				inner := g.fresh("hv.E", arrSort(sInt, l.Sort))
+				g.setComp(st, key, srt, smtSto(c, s.L[0], inner))
 				g.logWrite(key, s.L[0])
+				// only the positions of s change; the rest of the backing array keeps its content
+				i := g.fresh("i", sInt)
+				g.addCons(fmt.Sprintf("(forall ((%s Int)) (! (=> (or (< %s %s) (>= %s (+ %s %s))) (= (select %s %s) (select %s %s))) :pattern ((select %s %s))))",
+					i, i, s.L[1], i, s.L[1], s.L[2], inner, i, smtSel(c, s.L[0]), i, inner, i))
 			}
 			return nil
 		case "allelems":
@@ -523,6 +528,16 @@ func (g *Gen) havocTarget(env *Env, st *State, m Expr) error {
 			return nil
 		case "fields":
 			p := env.eval(x.Args[0])
+			if types.IsInterface(p.T) {
+				// fields(v) of an interface argument: the pointee of the pointer the call site boxed into it
+				if p.Dyn == nil {
+					return fmt.Errorf("fields(%s): dynamic type of the interface value is not known at this call site", exprString(x.Args[0]))
+				}
+				if _, ok := types.Unalias(p.Dyn).Underlying().(*types.Pointer); !ok {
+					return nil
+				}
+				p = &Value{T: p.Dyn, L: []string{p.L[1]}}
+			}
 			lv := g.lvOf(nil, st, p)
 			g.havocLV(st, lv)
 			return nil
@@ -531,10 +546,33 @@ func (g *Gen) havocTarget(env *Env, st *State, m Expr) error {
 			g.havocMap(st, mv)
 			return nil
 		case "allof":
-			// allof(T.f): the whole component of field f of struct type T — written as allof(x.f) with any x of the type
-			lv, err := env.evalLV(x.Args[0])
-			if err != nil {
-				return err
+			// allof(T.f): the whole component of field f of struct type T — written as allof(x.f) with any x of the type,
+			// or with the (possibly package-qualified) type name itself: allof(autofile.GroupReader.curIndex)
+			var lv *LValue
+			if fe, ok := x.Args[0].(*Field); ok {
+				tn := exprString(fe.X)
+				_, isVar := env.vars[tn]
+				if _, b := env.bound[tn]; b {
+					isVar = true
+				}
+				if !isVar && !strings.ContainsAny(tn, "()[] ") {
+					if t, terr := g.W.lookupType(&TypeX{Kind: "name", Name: tn}, env.pkgPath); terr == nil {
+						if stt, ok := types.Unalias(t).Underlying().(*types.Struct); ok {
+							for i := 0; i < stt.NumFields(); i++ {
+								if stt.Field(i).Name() == fe.Name {
+									lv = &LValue{Kind: lvHeap, Obj: "0", Root: t, Path: "." + fe.Name, T: stt.Field(i).Type()}
+								}
+							}
+						}
+					}
+				}
+			}
+			if lv == nil {
+				var err error
+				lv, err = env.evalLV(x.Args[0])
+				if err != nil {
+					return err
+				}
 			}
 			for _, l := range g.W.shapes.shape(lv.T) {
 				switch lv.Kind {
@@ -734,6 +772,10 @@ func (g *Gen) copyOp(fr *frame, st *State, dst, src *Value, rt types.Type) *Valu
 		g.addCons(fmt.Sprintf("(forall ((%s Int)) (! %s :pattern ((select %s %s))))", i, body, inner, i))
 		g.setComp(st, key, srt, nc)
 		g.logWrite(key, dst.L[0])
+		if !srcIsString && l.Path == "" && l.Sort == sInt && isByteType(et) {
+			// the copied range carries the abstract content identity of the source range
+			g.addCons(fmt.Sprintf("(= (bytesval %s %s %s) (bytesval %s %s %s))", inner, dst.L[1], n, smtSel(c, src.L[0]), src.L[1], n))
+		}
 	}
 	return &Value{T: rt, L: []string{n}}
 }
